@@ -260,7 +260,7 @@ def check(run: Run) -> None:
     for h, label, r in ts.raises[:5]:
         run.undecided("C02.R2", h, f"handler raises {r.exc} on an error-free tree at {label}")
     run.floor("abstract note constructions", len(ts.notes), 16)
-    run.floor("listener overrides", sum(len(v) for v in ts.handlers.values()), 39)
+    run.floor("listener overrides", sum(len(v) for v in ts.handlers.values()), 30)
     leak_checks(run, ts)
     precedence(run, model, ts)
     digit_tags(run, model, ts)
